@@ -181,10 +181,19 @@ def generate(spec, tier, seed):
             k += 1
             jobs.append(lambda fam=fam, path=path, s=s, extra=extra: vlib.run_harness(fam.name, path, s, tier, extra))
     outs = vlib.parallel(jobs)
+    good, aborted = [], []
     for (rc, out), path in zip(outs, paths):
-        if rc != 0:
+        if rc == 101:
+            # the harness itself panicked while driving the contracts (it does not on the tree it was written against):
+            # the implementation answered in a way the driver's own bookkeeping cannot represent.  The shard's trace is
+            # incomplete and is left out; the check reports it (see run_check)
+            aborted.append({"trace": os.path.basename(path), "rc": rc, "output": out[-600:]})
+        elif rc != 0:
             raise vlib.MachineryError(f"harness failed producing {path} (rc={rc}):\n{out[-2000:]}")
-    return paths
+        else:
+            good.append(path)
+    generate.aborted = aborted
+    return good
 
 
 def run_check(prop, tier, seed, replay=None):
@@ -206,6 +215,7 @@ def run_check(prop, tier, seed, replay=None):
         paths = replay_paths(spec, replay)
     else:
         paths = corpus_paths(spec) + generate(spec, tier, seed)   # minimised earlier failures run first
+    aborted = [] if replay else getattr(generate, "aborted", [])
     with ThreadPoolExecutor(16) as ex:
         corr = list(ex.map(vlib.run_model, paths))
     viol, stats = spec.monitor(paths)
@@ -241,8 +251,11 @@ def run_check(prop, tier, seed, replay=None):
                 "replay_cmd": f"./check {prop} --replay <this file>"})
             lines_out.append(f"VIOLATION property={prop} replay={rp}")
             violations += 1
-    elif proof["failed"] or divs:
+    elif proof["failed"] or divs or aborted:
         what = []
+        if aborted:
+            what.append({"correspondence": f"corr:{prop}", "harness_aborted_on": aborted,
+                         "meaning": "the driver panicked on an answer of the implementation it cannot represent (e.g. a stored value outside its documented range)"})
         if proof["failed"]:
             what.append({"theorems_no_longer_checked": proof["theorems"], "where": proof["failed"]["where"],
                          "log": proof["failed"]["log"]})
